@@ -81,11 +81,35 @@ V_unknown(e) == Fail(e.outcome # "ValueError", "C18.unknown_raises")
 \* the checksum routine of the loader against hashlib (hex digests recorded side by side)
 V_sha(e) == Fail(e.got # e.want, "C18.sha256")
 
+(* ---- where the cache lives (DataHome.tla): true trace validation, the specification's state is carried along the program.
+   event: [fn |-> "home", envset, steps |-> sequence of [act, outcome, ret, dl, exists, cached, elsewhere]]
+   C18's last sentence is the instance "remote load without a directory argument while TRAFFIC_WEAVER_DATA is set"; everything
+   else (argument > environment > default, creation, clearing, "~" expansion, cache hits) is beyond the listed properties: impl.* *)
+DH == INSTANCE DataHome WITH envset <- FALSE, exists <- {}, cached <- {}
+AsSet(t) == {t[i] : i \in 1..Len(t)}
+RECURSIVE HomeWalk(_, _, _)
+HomeWalk(e, j, s) ==
+    IF j > Len(e.steps) THEN {}
+    ELSE LET st == e.steps[j]
+             r  == DH!Do(s, st.act)
+             s2 == r[1]
+             dirsOK == AsSet(st.exists) = s2.exists /\ AsSet(st.cached) = s2.cached /\ Len(st.elsewhere) = 0
+             retOK  == (st.act.k # "get" \/ st.ret = r[2]) /\ (st.act.k # "fetch" \/ (st.ret = "data" /\ (st.dl >= 1) = r[3]))
+             c18    == st.act.k = "fetch" /\ st.act.arg = "none" /\ s.envset
+         IN IF st.outcome # "ok" THEN {IF c18 THEN "C18.load_ok" ELSE "impl.home_call_failed." \o st.act.k}
+            ELSE Fail(c18 /\ ~("env" \in AsSet(st.cached) /\ AsSet(st.cached) \ {"env"} = s.cached \ {"env"}
+                               /\ AsSet(st.exists) \ {"env"} = s.exists \ {"env"} /\ Len(st.elsewhere) = 0), "C18.data_home") \cup
+                 Fail(~dirsOK \/ ~retOK, "impl.home_step." \o st.act.k) \cup
+                 (IF dirsOK THEN HomeWalk(e, j + 1, s2) ELSE {})
+V_home(e) == HomeWalk(e, 1, [envset |-> e.envset, exists |-> {}, cached |-> {}])
+
 Verdict(e) ==
     CASE e.fn = "load" /\ e.doc = "remote"  -> V_remote(e)
       [] e.fn = "load" /\ e.doc = "bundled" -> V_bundled(e)
       [] e.fn = "load" /\ e.doc = "unknown" -> V_unknown(e)
       [] e.fn = "sha" -> V_sha(e)
+      [] e.fn = "home" -> V_home(e)
+      [] e.fn = "desc" -> Fail(e.got # e.want \/ Len(e.tables) < 4, "impl.description")
       [] OTHER -> {"machinery.unknown_fn"}
 
 Judge == l > 0 => PrintT(<<"V", Trace[l].id, Verdict(Trace[l])>>)
